@@ -51,7 +51,8 @@ DiagIn(got, x, idx) ==
   ELSE IF got = Out(AEff(idx), x) THEN "wrong-direction" ELSE "wrong-id"
 DiagOut(got, x, idx) ==
   IF LostGlobal(got, x, idx) THEN "not-translated" ELSE
-  IF ~IsMap(given[idx]) /\ \E m \in {left[idx]} \cup strays : IsMap(m) /\ Out(m, x) # Out(AEff(idx), x) /\ got = Out(m, x) THEN "stale-slot-mapping"
+  \* (the root entry of a mount that inherited a stale mapping is translated with it at mount time and at lookup time)
+  IF ~IsMap(given[idx]) /\ \E m \in {left[idx]} \cup strays : IsMap(m) /\ got # Out(AEff(idx), x) /\ got \in {Out(m, x), Out(m, Out(m, x))} THEN "stale-slot-mapping"
   ELSE IF got = Out(AEff(idx), Out(AEff(idx), x)) THEN "translated-twice"
   ELSE IF IsMap(given[idx]) /\ got = Out(gmap, x) THEN "global-instead-of-mount-mapping"
   ELSE IF got = x THEN "not-translated"
